@@ -44,6 +44,10 @@ CHECKS = {
    text="Same engine run as C12 with `return` leaves: for every skeleton with at most 3 (thorough 4) statements and every sequence of <= 6 (8) symbolic branch/loop decisions (the solver forks on each), the statements a structured interpreter of the source executes up to its first return are exactly those met by walking the produced graph from the entry with the same decisions. Counterexamples are replayed on the real parser + lifter.",
    note=TB + "Outside: for/compound-assignment expansion (ast_shortcuts), real leaf lifting, longer decision sequences, larger programs.",
    ref="DESIGN.md §3 C12/C13"),
+ 'C14': dict(
+   text="Partial: the generic SSA driver (insert_phi_statements, insert_ssa_variables, insert_ssa_variables_impl) and DominatorTree::new executed from MIR with the SSAConfig types bound to harness models whose edge sets and written-variable sets are symbolic: for every rooted digraph on <=3 nodes with 2 variables (4 nodes with 1 variable) a phi for v is placed in block j iff j is in the iterated dominance frontier of the blocks writing v (oracle by paths) and at most once; renaming visits every block once, after its immediate dominator, with balanced scopes whose depth equals the dominator-tree depth; successor phis are updated exactly once right after each block.",
+   note=TB + "Outside: ssa_impl.rs (statement renaming, declaration re-issue, version keys), i.e. that every read names the most recent version on every path; larger graphs. Counterexamples are reported from the deterministic engine run (the harness-bound block type does not exist natively).",
+   ref="DESIGN.md §3 C14"),
  'C15': dict(
    text="Symbolic execution of the MIR of DominatorTree::new / compute_dominators / compute_immediate_dominators / compute_dominance_frontier with the generic node type bound to a harness node whose predecessor set is a symbolic subset of the nodes: for every rooted digraph within the node bound (quick <=4, thorough <=5 nodes; self loops and irreducible graphs included) the dominator sets, immediate dominators, dominator-tree children and dominance frontiers equal their path definitions and the three internal assertions are unreachable.",
    note=TB + "HashSet<usize> is modelled as a bit set whose iteration order is ascending (order sensitivity is C17's subject). Graphs with more nodes are outside the claim.",
